@@ -58,16 +58,6 @@ CLAIMS.update({
         "buffers longer than stated, zlib/brotli, CFF/CFF2 DICTs and charstrings, SimpleGlyph::read_dep, post names, cmap format 2, subset/instance pipelines, "
         "Font::new. One open known finding (Fixed::neg overflow on fvar spans >= 32768.0).",
         "DESIGN.md section 6, C01", TECH_KANI),
-    "C02": (
-        "Bounded solver verdict for two primitives only - NOT for Font::shape, gsub::apply, gpos::apply or any script engine: "
-        "gsub::replace_missing_glyphs leaves every glyph id below the glyph count (or 0) and does not touch glyphs already in range (runs of 2 "
-        "and 3, all ids and counts); thorough tier: GlyphLayout::glyph_positions on a 2-glyph run with an arbitrary MarkAnchor/MarkOverprint/"
-        "CursiveAnchor index returns one position per glyph or BadIndex, never an out-of-range access. The glyph matching primitives "
-        "(find_prev/next/nth, match_back/front) are decided under C04.",
-        "Outside (almost all of the property): feature and lookup application, ligature application, syllable machines, reordering, morx, map_glyphs, "
-        "corrupt GSUB/GPOS. Seeded changes inside gsub_apply_custom and the like are not detected. Candidate for not_applicable; kept because the two "
-        "anchored mechanisms it does decide (glyph-id clamp, attachment-index validation) are named in the property.",
-        "DESIGN.md section 6, C02", TECH_KANI),
     "C03": (
         "Bounded solver verdict (2-safety, two-call histories against a fresh Font) for Font's own caches - NOT for the layout caches: on a Font "
         "built by the real Font::new over a 5-table provider, lookup_glyph_index(U+25CC, probe) after ANY earlier lookup of U+25CC (presentation x "
@@ -154,6 +144,7 @@ CLAIMS.update({
 })
 
 NOT_APPLICABLE = {
+    "C02": "Font::shape, gsub::apply, gpos::apply and every script engine sit behind LayoutCache (std HashMap) and Vec<RawGlyph> surgery (10-40 min, no answer); GlyphLayout::glyph_positions on a 2-glyph run with one symbolic attachment index ran out of 16 GB in every variant tried; what remains decidable (replace_missing_glyphs clamp; the matching primitives, decided under C04) is one of five anchored mechanisms and says nothing about totality of shaping (DESIGN.md section 9)",
     "C08": "cmap subset builder sits behind BTreeMap<Character,u16> (MappingsToKeep): pipeline 40 min and hooked kernel 25 min/10 GB gave no solver answer; a hook that bypasses the map would no longer execute the real code (DESIGN.md section 6, C08)",
     "C12": "the only reachable evaluation kernel (ItemVariationStore::adjustment, f32 region scalars through iterator adaptors) gave no answer in 10-15 min even with a concrete region; instancer/IUP/CFF2 blends are behind BTreeMap/Vec pipelines (DESIGN.md section 6, C12)",
     "C17": "every clause is a relation on the output of std's stable sort over symbolic keys; preprocess_text on 2 and 3 symbolic chars gave no answer in 15 min each; Engine B cannot take loops (DESIGN.md section 6, C17)",
